@@ -27,7 +27,9 @@ try:
                     res = {futs[f]: f.result() for f in cf.as_completed(futs)}
             finally:
                 sh("git -C /repo checkout HEAD -- . ; git -C /repo reset -q HEAD")
-            bad = {u: [f["id"] for f in r.failures] for u, r in res.items() if r.status == "failed"}
+            # the same rules as ./check: failures that depend on lost ghost bookkeeping / lost closure contracts are undecided
+            bad = {u: [f["id"] for f in r.failures if not f.get("lost_ghost") and not f.get("lost_closures")] for u, r in res.items() if r.status == "failed"}
+            bad = {u: v for u, v in bad.items() if v}
             und = {u: r.reason.split("\n")[0][:160] + " | " + " ".join(r.reason.split("\n")[1:3])[:300] for u, r in res.items() if r.status == "undecided"}
             out[name] = dict(failed=bad, undecided=und)
             print("%-14s %s%s" % (name, "FALSE-ALARM " + json.dumps(bad) if bad else "quiet", ("  undecided: " + json.dumps(und)) if und else ""), flush=True)
